@@ -169,6 +169,8 @@ def run_property(prop, module, tier="quick", level="other", extra_cover=None):
     prog = Program(extract.load_facts(facts_dir))
     ctx = Ctx(prop, prog, tier, repo)
     ctx.extract_info = info
+    for n_, k_ in sorted(extract.RENAMES.items()):
+        ctx.notes.append("renamed/moved function: `%s` has the signature of the anchored `%s`, which no longer exists, and is analysed in its place" % (n_, k_))
     crashed = None
     thorough = {}
     try:
